@@ -292,6 +292,8 @@ func TestVerifC17Responder(t *testing.T) {
 				case 'H':
 					w.Header().Set("Content-Type", "handler/type")
 					w.Header().Set("X-Handler", "1")
+					w.Header().Add("Vary", "handler") // same keys as the outer middleware already set
+					w.Header().Set("X-Outer", "handler")
 				case 'F':
 					if f, ok := w.(http.Flusher); ok {
 						f.Flush()
@@ -307,7 +309,15 @@ func TestVerifC17Responder(t *testing.T) {
 			}
 			resCh <- res
 		})
-		svr := httptest.NewUnstartedServer(rawResponder(handler))
+		// an outer middleware (like CORS in the real server) sets headers before the responder sees the request
+		outer := func(next http.Handler) http.Handler {
+			return http.HandlerFunc(func(w http.ResponseWriter, r *http.Request) {
+				w.Header().Set("Vary", "outer")
+				w.Header().Set("X-Outer", "1")
+				next.ServeHTTP(w, r)
+			})
+		}
+		svr := httptest.NewUnstartedServer(outer(rawResponder(handler)))
 		svr.EnableHTTP2 = h2
 		svr.StartTLS()
 		client := svr.Client()
@@ -379,6 +389,9 @@ func TestVerifC17Responder(t *testing.T) {
 				rep.Count("raw_accepted", 1)
 				if resp.StatusCode != 418 || resp.Header.Get("X-Raw") != "yes" || resp.Header.Get("Content-Type") != "raw/type" || string(body) != "raw-body" {
 					rep.Violation("raw/responder/accepted-but-not-on-wire", fmt.Sprintf("sequence %s: raw response accepted but the wire shows status %d, X-Raw %q, Content-Type %q, body %q", cur, resp.StatusCode, resp.Header.Get("X-Raw"), resp.Header.Get("Content-Type"), body), w)
+				}
+				if v := resp.Header.Values("Vary"); len(v) != 1 || v[0] != "outer" || resp.Header.Get("X-Outer") != "1" {
+					rep.Violation("raw/responder/handler-value-on-middleware-header", fmt.Sprintf("sequence %s: raw response accepted but headers the outer middleware had set now read Vary=%q X-Outer=%q (want [outer], 1)", cur, v, resp.Header.Get("X-Outer")), w)
 				}
 				if resp.Header.Get("X-Handler") != "" || strings.Contains(string(body), "handler-body") {
 					rep.Violation("raw/responder/handler-output-leaked", fmt.Sprintf("sequence %s: raw response accepted but handler output is on the wire", cur), w)
